@@ -10,6 +10,8 @@ pub mod tape {
         pub static TAPE: RefCell<(Vec<Vec<u8>>, usize)> = const { RefCell::new((Vec::new(), 0)) };
         pub static FAILED: RefCell<Vec<String>> = const { RefCell::new(Vec::new()) };
         pub static COVERED: RefCell<Vec<String>> = const { RefCell::new(Vec::new()) };
+        /// description of the input currently being executed (native enumeration runs): attached to a failed obligation
+        pub static CONTEXT: RefCell<String> = const { RefCell::new(String::new()) };
     }
     pub struct AssumeFailed;
     pub fn load(t: Vec<Vec<u8>>) {
@@ -87,7 +89,14 @@ pub fn assume(c: bool) {
 #[cfg(not(kani))]
 pub fn check_fn(c: bool, label: &'static str) {
     if !c {
-        tape::FAILED.with(|f| f.borrow_mut().push(label.to_string()));
+        let ctx = tape::CONTEXT.with(|c| c.borrow().clone());
+        tape::FAILED.with(|f| {
+            let mut f = f.borrow_mut();
+            // an enumeration reports each obligation once, with the first input that fails it
+            if !f.iter().any(|l| l.starts_with(label)) {
+                f.push(if ctx.is_empty() { label.to_string() } else { format!("{label} [input: {ctx}]") });
+            }
+        });
     }
 }
 #[cfg(kani)]
@@ -237,3 +246,13 @@ pub fn stack_matches<T: PartialEq>(s: &push::push_vm::stack::Stack<T>, m: &[T]) 
         _ => matches!(s.top3(), Ok((a, b, c)) if *a == m[n - 1] && *b == m[n - 2] && *c == m[n - 3]),
     }
 }
+
+/// native enumeration runs: names the input being executed (no-op under Kani)
+#[cfg(not(kani))]
+pub fn context(f: impl FnOnce() -> String) {
+    let s = f();
+    tape::CONTEXT.with(|c| *c.borrow_mut() = s);
+}
+#[cfg(kani)]
+#[inline(always)]
+pub fn context(_f: impl FnOnce() -> String) {}
